@@ -39,6 +39,7 @@ pub struct Core {
     last_voted_round: Round,
     last_committed_round: Round,
     high_qc: QC,
+    last_tc: Option<TC>,
     timer: Timer,
     aggregator: Aggregator,
     network: SimpleSender,
@@ -77,6 +78,7 @@ impl Core {
                 last_voted_round: 0,
                 last_committed_round: 0,
                 high_qc: QC::genesis(),
+                last_tc: None,
                 timer: Timer::new(timeout_delay),
                 aggregator: Aggregator::new(committee),
                 network: SimpleSender::new(),
@@ -170,6 +172,12 @@ impl Core {
         }
     }
 
+    fn update_last_tc(&mut self, tc: &TC) {
+        if self.last_tc.as_ref().map_or(true, |x| tc.round > x.round) {
+            self.last_tc = Some(tc.clone());
+        }
+    }
+
     async fn local_timeout_round(&mut self) -> ConsensusResult<()> {
         warn!("Timeout reached for round {}", self.round);
         #[cfg(hotstuff_verif)]
@@ -251,6 +259,20 @@ impl Core {
             input: crate::verif::Input::Timeout(timeout.clone()),
         });
         if timeout.round < self.round {
+            // The sender is stuck in a round we left through a TC: it may have missed that TC
+            // (e.g., its assembler crashed while broadcasting it) and nobody else will send it
+            // again. Help the sender catch up; QCs reach it through our own timeout messages.
+            if let Some(tc) = self.last_tc.clone() {
+                if tc.round >= timeout.round && timeout.author != self.name {
+                    timeout.verify(&self.committee)?;
+                    if let Some(address) = self.committee.address(&timeout.author) {
+                        debug!("Sending {:?} to {}", tc, timeout.author);
+                        let message = bincode::serialize(&ConsensusMessage::TC(tc))
+                            .expect("Failed to serialize timeout certificate");
+                        self.network.send(address, Bytes::from(message)).await;
+                    }
+                }
+            }
             return Ok(());
         }
 
@@ -268,6 +290,7 @@ impl Core {
 
             // Try to advance the round.
             self.advance_round(tc.round).await;
+            self.update_last_tc(&tc);
 
             // Broadcast the TC.
             debug!("Broadcasting {:?}", tc);
@@ -421,6 +444,7 @@ impl Core {
         // Process the TC (if any). This may also allow us to advance round.
         if let Some(ref tc) = block.tc {
             self.advance_round(tc.round).await;
+            self.update_last_tc(tc);
         }
 
         // Let's see if we have the block's data. If we don't, the mempool
@@ -442,6 +466,7 @@ impl Core {
             return Ok(());
         }
         self.advance_round(tc.round).await;
+        self.update_last_tc(&tc);
         if self.name == self.leader_elector.get_leader(self.round) {
             self.generate_proposal(Some(tc)).await;
         }
